@@ -257,6 +257,123 @@ fn build_entries<DS: Clone>(alpha: &[DS], idx: &[usize], split: &[usize]) -> Vec
     }
     out
 }
+/// wide alphabets for 2-signature databases: every field takes a second (and special) value at each point of
+/// the version x payload-class x layout product, so that an index keyed on any field is exercised
+fn tcp_sig_alphabet_wide() -> Vec<tcp::Signature> {
+    let mut v = vec![];
+    for ver in [IpVersion::V4, IpVersion::V6, IpVersion::Any] {
+        for pc in [PayloadSize::Zero, PayloadSize::NonZero, PayloadSize::Any] {
+            for ol in [vec![TcpOption::Mss], vec![TcpOption::Mss, TcpOption::Nop]] {
+                let base = tcp::Signature { version: ver, ittl: Ttl::Value(64), olen: 0, mss: None, wsize: WindowSize::Any, wscale: None, olayout: ol.clone(), quirks: vec![Quirk::Df], pclass: pc };
+                v.push(base.clone());
+                v.push(tcp::Signature { ittl: Ttl::Value(128), ..base.clone() });
+                v.push(tcp::Signature { ittl: Ttl::Bad(64), ..base.clone() });
+                v.push(tcp::Signature { wsize: WindowSize::Value(8192), ..base.clone() });
+                v.push(tcp::Signature { wsize: WindowSize::Mod(1024), ..base.clone() });
+                v.push(tcp::Signature { wsize: WindowSize::Mss(4), ..base.clone() });
+                v.push(tcp::Signature { mss: Some(1460), ..base.clone() });
+                v.push(tcp::Signature { mss: Some(0), wscale: Some(0), ..base.clone() });
+                v.push(tcp::Signature { wscale: Some(7), ..base.clone() });
+                v.push(tcp::Signature { olen: 4, ..base.clone() });
+                v.push(tcp::Signature { quirks: vec![Quirk::Df, Quirk::FlowID], ..base.clone() });
+                v.push(tcp::Signature { quirks: vec![Quirk::Df, Quirk::NonZeroID], ..base.clone() });
+                v.push(tcp::Signature { quirks: vec![], ..base.clone() });
+                v.push(tcp::Signature { quirks: vec![Quirk::Ecn, Quirk::Df], ..base.clone() });
+            }
+        }
+    }
+    v
+}
+fn tcp_obs_alphabet_wide() -> Vec<TcpObservation> {
+    let mut v = vec![];
+    for ver in [IpVersion::V4, IpVersion::V6] {
+        for pc in [PayloadSize::Zero, PayloadSize::NonZero] {
+            for ol in [vec![TcpOption::Mss], vec![TcpOption::Mss, TcpOption::Nop], vec![TcpOption::Nop]] {
+                let base = TcpObservation { version: ver, ittl: Ttl::Distance(57, 7), olen: 0, mss: Some(1460), wsize: WindowSize::Value(8192), wscale: Some(7), olayout: ol.clone(), quirks: vec![Quirk::Df], pclass: pc };
+                v.push(base.clone());
+                v.push(TcpObservation { ittl: Ttl::Distance(120, 8), ..base.clone() });
+                v.push(TcpObservation { ittl: Ttl::Value(200), ..base.clone() });
+                v.push(TcpObservation { wsize: WindowSize::Mss(4), ..base.clone() });
+                v.push(TcpObservation { wsize: WindowSize::Mod(4096), ..base.clone() });
+                v.push(TcpObservation { mss: None, wscale: None, ..base.clone() });
+                v.push(TcpObservation { olen: 4, ..base.clone() });
+                v.push(TcpObservation { quirks: vec![Quirk::Df, Quirk::FlowID], ..base.clone() });
+                v.push(TcpObservation { quirks: vec![Quirk::Df, Quirk::NonZeroID], ..base.clone() });
+                v.push(TcpObservation { quirks: vec![], ..base.clone() });
+                v.push(TcpObservation { quirks: vec![Quirk::Df, Quirk::Ecn], ..base.clone() });
+            }
+        }
+    }
+    v
+}
+fn http_sig_alphabet_wide() -> Vec<http::Signature> {
+    let mut v = vec![];
+    for ver in [Version::V10, Version::V11, Version::Any] {
+        for ho in [vec![Header::new("Host")], vec![Header::new("Host"), Header::new("Cookie").optional()], vec![Header::new("Accept").with_value("x")], vec![Header::new("Host"), Header::new("Accept").with_value("x"), Header::new("Connection")]] {
+            for ha in [vec![], vec![Header::new("Via")], vec![Header::new("Host")]] {
+                for sw in ["", "a", "Apache"] {
+                    v.push(http::Signature { version: ver, horder: ho.clone(), habsent: ha.clone(), expsw: sw.to_string() });
+                }
+            }
+        }
+    }
+    v
+}
+fn http_obs_alphabet_wide() -> Vec<(Version, Vec<Header>, Vec<Header>, String)> {
+    let mut v = vec![];
+    for ver in [Version::V10, Version::V11, Version::V20, Version::V30] {
+        for ho in [vec![Header::new("Host")], vec![Header::new("Host"), Header::new("Cookie")], vec![Header::new("Accept").with_value("x")], vec![Header::new("Accept").with_value("y")], vec![Header::new("Host"), Header::new("Accept").with_value("x"), Header::new("Connection")]] {
+            for ha in [vec![], vec![Header::new("Via")]] {
+                for sw in ["", "a", "b"] {
+                    v.push((ver, ho.clone(), ha.clone(), sw.to_string()));
+                }
+            }
+        }
+    }
+    v
+}
+fn generated_wide(r: &mut Report) {
+    let ta = tcp_sig_alphabet_wide();
+    let to = tcp_obs_alphabet_wide();
+    let total = ta.len() * ta.len();
+    let rep = par_slices(total, 256, |rg| {
+        let mut r = Report::new();
+        for i in rg {
+            let idx = [i % ta.len(), i / ta.len()];
+            for sp in splits(2) {
+                let coll: FingerprintCollection<TcpObservation, tcp::Signature, _> = FingerprintCollection::new(build_entries(&ta, &idx, &sp));
+                r.states += 1;
+                for o in &to {
+                    check_lookup(&mut r, &coll, o, "generated-tcp", &|| json!({"signatures": idx.iter().map(|&i| ta[i].to_string()).collect::<Vec<_>>(), "labels": sp}));
+                }
+            }
+        }
+        r
+    });
+    *r = std::mem::take(r).merge(rep);
+    let ha = http_sig_alphabet_wide();
+    let ho = http_obs_alphabet_wide();
+    let total = ha.len() * ha.len();
+    let rep = par_slices(total, 256, |rg| {
+        let mut r = Report::new();
+        for i in rg {
+            let idx = [i % ha.len(), i / ha.len()];
+            for sp in splits(2) {
+                let cq: FingerprintCollection<HttpRequestObservation, http::Signature, _> = FingerprintCollection::new(build_entries(&ha, &idx, &sp));
+                let cp: FingerprintCollection<HttpResponseObservation, http::Signature, _> = FingerprintCollection::new(build_entries(&ha, &idx, &sp));
+                r.states += 2;
+                for (v, h, a, sw) in &ho {
+                    let ctx = || json!({"signatures": idx.iter().map(|&i| ha[i].to_string()).collect::<Vec<_>>(), "labels": sp});
+                    check_lookup(&mut r, &cq, &HttpRequestObservation { version: *v, horder: h.clone(), habsent: a.clone(), expsw: sw.clone() }, "generated-http-request", &ctx);
+                    check_lookup(&mut r, &cp, &HttpResponseObservation { version: *v, horder: h.clone(), habsent: a.clone(), expsw: sw.clone() }, "generated-http-response", &ctx);
+                }
+            }
+        }
+        r
+    });
+    *r = std::mem::take(r).merge(rep);
+}
+
 fn generated(r: &mut Report, max_tcp: usize, max_http: usize) {
     let ta = tcp_sig_alphabet();
     let to = tcp_obs_alphabet();
@@ -317,11 +434,12 @@ pub fn run(thorough: bool) -> Outcome {
     let _ = thorough;
     let max_sigs = 3;
     generated(&mut r, max_sigs, 3);
+    generated_wide(&mut r);
     Outcome {
         report: r,
         rule: "lookups compared with a full scan: bundled database x observations derived from every bundled signature with each field perturbed (TCP: both tables; HTTP: 4 versions x header-list variants x software strings); every generated database of <= N signatures (72 TCP / 18 HTTP signature alphabet, every split into labels) x every observation of the concrete alphabets (48 TCP / 48 HTTP); distinct = distinct (table, scan result) outcomes".into(),
         exhaustive: true,
-        bounds: json!({"max_signatures_per_generated_tcp_database": max_sigs, "max_signatures_per_generated_http_database": 3, "tcp_sig_alphabet": 72, "http_sig_alphabet": 18}),
+        bounds: json!({"max_signatures_per_generated_tcp_database": max_sigs, "max_signatures_per_generated_http_database": 3, "tcp_sig_alphabet": 72, "http_sig_alphabet": 18, "wide_tcp_sig_alphabet_for_2_signature_databases": tcp_sig_alphabet_wide().len(), "wide_http_sig_alphabet": http_sig_alphabet_wide().len()}),
     }
 }
 
